@@ -538,6 +538,21 @@ theorem unflatten_reverse_reads_every_spelling (c : Call) (d : Int) (sz : List I
         · simp only [reverse, ha, hk, Option.getD_some, asInt, asInts, bind, Except.bind, pure, Except.pure]; split <;> rfl
         · simp only [reverse, ha, hk0, hk1, Option.getD_some, asInt, asInts, bind, Except.bind, pure, Except.pure]; split <;> rfl
 
+/-- "admitting new keys when it is not [locked]": every key of the inverse image is a key of the original after the
+write-back (pairwise unrelated key paths, i.e. a valid key structure) -/
+theorem writeBack_admits_new_keys (out inv : St) (hl : out.locked = false) (hbs : inv.bs = out.bs)
+    (hv : ∀ a ∈ inv.keys, ∀ b ∈ inv.keys, a = b ∨ Unrelated a b) :
+    ∃ r, writeBack out inv = .ok r ∧ (∀ k ∈ inv.keys, k ∈ r.keys) ∧
+      (∀ k ∈ out.keys, (∀ p ∈ inv.keys, k = p ∨ Unrelated k p) → k ∈ r.keys) := by
+  refine ⟨{ out with keys := inv.keys.foldl insertPath out.keys }, ?_, ?_, ?_⟩
+  · unfold writeBack
+    simp [hbs, hl]
+  · intro k hk
+    exact foldl_insertPath_mem inv.keys out.keys k hv (Or.inl hk)
+  · intro k hk hu
+    exact foldl_insertPath_mem inv.keys out.keys k hv (Or.inr ⟨hk, hu⟩)
+
+
 /-! ## values: the inverse restores every element (functional tensors of C02), not only the shape -/
 
 /-- values: transposing twice gives the tensor back -/
